@@ -6,8 +6,8 @@
    schemas = [s_bam; s_bah; s_txm; s_body; s_ghs; s_gmsg; s_warp; s_lreq; s_lresp; s_header]. *)
 From Common Require Import Bytes Outcome.
 From Scale Require Import Compact Types Spec Codec Total Cost WellTyped.
-From Scale Require Import CostExcess.
-From C33 Require Import Model Proofs ProofsExcess.
+From Scale Require Import CostExcess CostDeclared.
+From C33 Require Import Model Proofs ProofsExcess ProofsDeclared.
 Local Open Scope N_scope.
 
 Theorem C33_schemas_wf : forallb wf_ty schemas = true.
@@ -85,6 +85,36 @@ Theorem C33_cost_excess : forall t bs v r, In t schemas ->
   decode_cost current t bs <= (ca t + cb t) * (1 + len bs) + bytes_total v.
 Proof. exact cost_schemas_excess. Qed.
 Print Assumptions C33_cost_excess.
+
+(* closer: on the current tree, for EVERY schema and EVERY input - failing decodes included - the
+   cost is at most the linear bound plus declared_total t bs = Scale.CostDeclared.declared current
+   t bs, a walker over the input that sums the byte-string lengths decodeBytes accepts (the
+   arguments of make([]byte, length)) whether or not the read that follows, or a later field,
+   fails.  It extends C33_cost_excess to all outcomes ... *)
+Theorem C33_cost_declared : forall t bs, In t schemas ->
+  decode_cost current t bs <= (ca t + cb t) * (1 + len bs) + declared_total t bs.
+Proof. exact cost_schemas_declared. Qed.
+Print Assumptions C33_cost_declared.
+
+(* ... and on success the walker's sum is the byte-string total of the decoded message *)
+Theorem C33_cost_declared_success : forall t bs v r, In t schemas ->
+  decode_res current t bs = Ok (v, r) -> declared_total t bs = bytes_total v.
+Proof. exact declared_schemas_success. Qed.
+Print Assumptions C33_cost_declared_success.
+
+(* non-vacuity, FAILING decodes: a 108-byte block announce whose digest item declares a byte vector
+   of 1 048 575 bytes and supplies one (accepted: short read), the best-block flag then missing -
+   an error, cost above the linear term alone, within the bound with the declared term; a header
+   (block response) with 16 383 declared bytes and the second digest item missing *)
+Example C33_cost_declared_nonvacuous :
+  (In s_bam schemas /\ decode_res current s_bam w_bam = Err 1%nat /\ len w_bam = 108 /\
+   declared_total s_bam w_bam = 1048575 /\ 1048575 <= decode_cost current s_bam w_bam /\
+   (ca s_bam + cb s_bam) * (1 + len w_bam) < decode_cost current s_bam w_bam /\
+   decode_cost current s_bam w_bam <=
+     (ca s_bam + cb s_bam) * (1 + len w_bam) + declared_total s_bam w_bam) /\
+  (In s_header schemas /\ decode_res current s_header w_header = Err 1%nat /\
+   declared_total s_header w_header = 16383 /\ 16383 <= decode_cost current s_header w_header).
+Proof. exact cost_declared_witness. Qed.
 
 Theorem C33_cost_constants : forallb (fun t => ca t + cb t <=? 54500) schemas = true.
 Proof. exact cost_constants. Qed.
